@@ -130,20 +130,28 @@ Proof.
   unfold gen_det, gen_det2, gen_a, gen_b, gen_c, TOL, zero_lit.
   repeat split.
   - intros Ht Hmrt Hd.
+    assert (Hnz : m * r * t + Rlit 20 (-1) * p * q * s - m * s * s - r * q * q - t * p * p <> 0).
+    { intro E. rewrite E, Rabs_R0 in Hd. Rlit_norm_in Hd. lra. }
     destruct (Rlt_dec (Rabs r) (Rlit 1 (-10))) as [Hr | Hr]; [| apply Rnot_lt_le in Hr].
-    + pyrun_using ltac:(first [assumption | pylra]). reflexivity.
-    + pyrun_using ltac:(first [assumption | pylra]). reflexivity.
-  - intros Ht Hm Hr Hd. pyrun_using ltac:(first [assumption | pylra]). reflexivity.
-  - intros Hr Ht Hm. pyrun_using ltac:(first [assumption | pylra]). reflexivity.
-  - intros Ht Hm Hr Hd. pyrun_using ltac:(first [assumption | pylra]). reflexivity.
+    + pyrun2 ltac:(pylra_fast) no_idx ltac:(fun s => fail). reflexivity.
+    + pyrun2 ltac:(pylra_fast) no_idx ltac:(fun s => fail). reflexivity.
+  - intros Ht Hm Hr Hd.
+    assert (Hnz : m * r - p * p <> 0).
+    { intro E. rewrite E, Rabs_R0 in Hd. Rlit_norm_in Hd. lra. }
+    pyrun2 ltac:(pylra_fast) no_idx ltac:(fun s => fail). reflexivity.
+  - intros Hr Ht Hm.
+    assert (Hnz : m <> 0).
+    { intro E. rewrite E, Rabs_R0 in Hm. Rlit_norm_in Hm. lra. }
+    pyrun2 ltac:(pylra_fast) no_idx ltac:(fun s => fail). reflexivity.
+  - intros Ht Hm Hr Hd. pyrun2 ltac:(pylra_fast) no_idx ltac:(fun s => fail). reflexivity.
   - intros Ht Hmrt.
     destruct (Rlt_dec (Rabs r) (Rlit 1 (-10))) as [Hr | Hr]; [| apply Rnot_lt_le in Hr].
-    + pyrun_using ltac:(first [assumption | pylra]). reflexivity.
-    + pyrun_using ltac:(first [assumption | pylra]). reflexivity.
+    + pyrun2 ltac:(pylra_fast) no_idx ltac:(fun s => fail). reflexivity.
+    + pyrun2 ltac:(pylra_fast) no_idx ltac:(fun s => fail). reflexivity.
   - intros Ht Hmrt Hd.
     destruct (Rlt_dec (Rabs r) (Rlit 1 (-10))) as [Hr | Hr]; [| apply Rnot_lt_le in Hr].
-    + pyrun_using ltac:(first [assumption | pylra]). reflexivity.
-    + pyrun_using ltac:(first [assumption | pylra]). reflexivity.
+    + pyrun2 ltac:(pylra_fast) no_idx ltac:(fun s => fail). reflexivity.
+    + pyrun2 ltac:(pylra_fast) no_idx ltac:(fun s => fail). reflexivity.
 Qed.
 
 End General.
